@@ -29,7 +29,12 @@ class InducedSet:
         "Induced set cannot be computed\n"+
         "Line is not connected to a GFA instance\n"+
         "Line: {}".format(self))
-    return self._compute_induced_segments_set(())
+    try:
+      return self._compute_induced_segments_set(())
+    except RecursionError as err:
+      raise gfapy.RuntimeError(
+        "Induced set cannot be computed\n"+
+        "The nesting of the groups is too deep") from err
 
   def _compute_induced_segments_set(self, visiting):
     # visiting: the sets whose induced set is being computed
